@@ -134,6 +134,17 @@ def run(ctx):
     vlib.log("spec MaskDoIf_mutant.cfg (do_if re-evaluated per value): rejected by TLC with a %d-state counterexample"
              % len(mut.trace))
     model["MaskDoIf"] = {"mechanism_states": res.distinct, "mutant_rejected": True, "mutant_trace_len": len(mut.trace)}
+    # match rules under several instances: stateless evaluation accepted, scratch buffer on the shared rule set rejected
+    res = ctx.tlc_expect_ok("MaskRules", "MaskRules_quick.cfg", timeout=300, deadlock=False, workers=4)
+    mut = ctx.tlc("MaskRules", "MaskRules_mutant.cfg", timeout=300, deadlock=False, workers=4,
+                  name="MaskRules/mutant (expected violation)")
+    if mut.ok or mut.violated != "DecisionIsFunctionOfValue":
+        raise vlib.Infra("mutant M_MatchStateless=FALSE was not rejected by TLC (violated=%s): MaskRules.tla no longer "
+                         "distinguishes the mechanism" % mut.violated)
+    vlib.log("spec MaskRules_quick.cfg (rule decision = function of (rule, value), 3 instances): %d states; mutant "
+             "(scratch buffer on the shared rule set, 2 instances) rejected with a %d-state counterexample"
+             % (res.distinct, len(mut.trace)))
+    model["MaskRules"] = {"mechanism_states": res.distinct, "mutant_rejected": True, "mutant_trace_len": len(mut.trace)}
     ctx.extra["abstract_model"] = model
 
     # ---- 2. the real plugin: records
@@ -160,7 +171,12 @@ def run(ctx):
              "between consecutive runs), %d distinct (config, event, outcome) records"
              % (sm.get("stress_runs", 0), sm.get("stress_ms_per_config", 0), sm.get("stress_alternations", 0),
                 sm.get("stress_outcomes", 0)))
-    if not ctx.replay and (sm.get("stress_runs", 0) < 2000 or sm.get("stress_outcomes", 0) < 24):
+    vlib.log("stress, match rules shared by 4 instances (each fed its own values; %d ms per config, 60%% at the default "
+             "GOMAXPROCS, 40%% at GOMAXPROCS=1): %d concurrent evaluations of Do, %d of them started while another instance "
+             "was inside Do" % (sm.get("rule_stress_ms_per_config", 0), sm.get("rule_stress_runs", 0),
+                                sm.get("rule_stress_overlapped", 0)))
+    if not ctx.replay and (sm.get("stress_runs", 0) < 2000 or sm.get("stress_outcomes", 0) < 24
+                           or sm.get("rule_stress_runs", 0) < 2000):
         raise vlib.Infra("stress family did not run: %s" % sm)
     vlib.log("do_if-order family (a mask's do_if reads a field the plugin itself rewrites; field before / after / between "
              "the secrets): %d runs" % sm.get("doif_order_runs", 0))
@@ -250,7 +266,9 @@ def run(ctx):
                 "field that an earlier mask, a later mask or the mask itself rewrites x events with that field before / "
                 "after / between the secrets (later key, nested object, array); stress family = 4 instances started on ONE "
                 "shared config (do_if-guarded masks, match rules, own lists) run concurrently over events with alternating "
-                "do_if outcomes, one record per distinct (config, event, outcome). Every record is evaluated by TLC against "
+                "do_if outcomes, and masks with match_rules (prefix / suffix / contains, case_insensitive on/off, invert, and/or, "
+                "two rule sets) whose shared RuleSet objects are evaluated by the 4 instances on their own distinct values "
+                "(default GOMAXPROCS and GOMAXPROCS=1), one record per distinct (config, event, outcome). Every record is evaluated by TLC against "
                 "Mask.tla (identical records once). Non-trivial = the regexp matched (T non-empty; counted by the driver) "
                 "or the record is an event." % ("-6" if thorough else "", "all" if thorough else "seeded 4% sample"))
     ctx.extra.update({"driver": sm, "failing_records": len(bad),
